@@ -37,6 +37,9 @@ class CountingFile:
         if kind == 'short' and len(out) > 0:
             out = out[:len(out) // 2] if len(out) > 1 else b''
             self.delivered.append((k, kind))
+        elif kind == 'short512' and len(out) > 512:       # only the tail of a large transfer is missing
+            out = out[:len(out) - 512]
+            self.delivered.append((k, kind))
         elif kind == 'short4' and len(out) > 4:          # short by a whole number of 32-bit words (a truncated header array still parses)
             out = out[:max(4, (len(out) // 8) * 4)]
             self.delivered.append((k, kind))
@@ -110,6 +113,10 @@ class FakeBlob:
                 with self.lock:
                     self.delivered.append((k, kind))
                 return out[:max(4, (len(out) // 8) * 4)]
+            if kind == 'short512' and len(out) > 512:
+                with self.lock:
+                    self.delivered.append((k, kind))
+                return out[:len(out) - 512]
             if kind == 'empty' and len(out) > 0:
                 with self.lock:
                     self.delivered.append((k, kind))
